@@ -331,6 +331,7 @@ where
 
         let mut data = &mut self.data;
         let mut pos = 0;
+        let mut seal = None;
 
         loop {
             let offset = *L::from_bytes(data)?;
@@ -341,13 +342,13 @@ where
                 let payload_size = ceil_mul(T::from_bytes(payload)?.size(), Self::ALIGN);
                 let last_offset = offset_size + payload_size;
                 pos += last_offset;
-                L::from_usize(last_offset)
+                let last_offset = L::from_usize(last_offset)
                     .and_then(|o| if o < L::max_value() { Some(o) } else { None })
                     .ok_or(Error {
                         kind: ErrorKind::InsufficientSize,
                         pos,
-                    })?
-                    .emplace(offset_slot)?;
+                    })?;
+                seal = Some((offset_slot, last_offset));
                 (_, data) = payload.split_at_mut(payload_size);
                 break;
             }
@@ -364,8 +365,12 @@ where
         }
 
         let (offset_slot, payload) = data.split_at_mut(offset_size);
+        let item = emplacer.emplace(payload)?;
         L::max_value().emplace(offset_slot)?;
-        emplacer.emplace(payload)
+        if let Some((last_slot, last_offset)) = seal {
+            last_offset.emplace(last_slot)?;
+        }
+        Ok(item)
     }
     pub fn push_default(&mut self) -> Result<&mut T, Error>
     where
